@@ -3,9 +3,14 @@ from checks import decoder_units as D
 from checks.decoder_common import run_property
 
 
+SEED = [0]
+
+
 def jobs(tier):
     m = ("strict",)
-    return D.g_dispatch(m) + D.g_structs(m) + D.g_encrypt_any(m) + D.g_arrays(m) + D.g_frames(m) + D.g_leaf(m, deep=2) + D.g_region(m, tier) + D.g_typed(("INT", "VALID")) + D.g_pump(m)
+    # bounded stand-in (never counted): generated encodings, structured faults and byte-level mutants through Binary.marshal -
+    # any outcome other than the reference semantics' documented one (an internal error in particular) is reported
+    return D.g_crosscheck(tier, SEED[0]) + D.g_dispatch(m) + D.g_structs(m) + D.g_encrypt_any(m) + D.g_arrays(m) + D.g_frames(m) + D.g_leaf(m, deep=2) + D.g_region(m, tier) + D.g_typed(("INT", "VALID")) + D.g_pump(m)
 
 
 def keep(name, ob):
@@ -13,6 +18,7 @@ def keep(name, ob):
 
 
 def run(tier, seed, only=None):
+    SEED[0] = seed
     from checks.replay_decoder import replayer
     return run_property("C06", tier, seed, jobs(tier), keep,
                         "safety obligations on every strict-mode path of every instantiation: no assert, KeyError, IndexError, NameError, TypeError, AttributeError, StopIteration can escape; loops over symbolic bounds have a decreasing variant; what escapes a walker is one of its contract's raising cases",
